@@ -168,7 +168,7 @@ impl Engine for TokSim {
         execute(case, stats, work)
     }
 
-    fn shrink(&self, case: &TokCase) -> Vec<TokCase> {
+    fn shrink(&self, case: &TokCase, _v: &Violation) -> Vec<TokCase> {
         let mut out = vec![];
         // 1. drop op chunks
         let n = case.ops.len();
